@@ -110,6 +110,13 @@ fn main() {
             let shards = o.finish();
             println!("{{\"events\":{n},\"shards\":{shards}}}");
         }
+        ("record", "pollimpl") => {
+            let mut o = out::Out::new(&outp, shard);
+            frontends::record_pollimpl(&mut o, &tier, seed, &get("fam", "v3"));
+            let n = o.seq;
+            let shards = o.finish();
+            println!("{{\"events\":{n},\"shards\":{shards}}}");
+        }
         ("record", "api") => {
             let mut o = out::Out::new(&outp, shard);
             api::record_api(&mut o, seed);
